@@ -194,6 +194,33 @@ def run(ctx):
                  sample={"suite": "bounds on real solves (diffusivity jump next to a heat-exchanging wall)", "failures": bad[:2]})
         for what, detail in bad:
             viol.append((c, what, detail))
+    # a WEAK film (cell Biot number dr*h/k = 2^-5) and a step several times the wall's response time t*k/(a*h): an
+    # iteration that treats the film term explicitly still converges here (its contraction factor is the Biot number) but
+    # overshoots the fluid temperature; with a strong film it diverges and the solve raises, which is C17's subject
+    for n in range(4 if ctx.quick() else 16):
+        c = tc.gen_case(rng, ndim=1 + n % 2, inner="film", outer="ins", steady=False, const_mat=True, nsteps=3)
+        c.nr = rng.choice([5, 9])
+        c.r, c.t = 10.0, 2.0
+        dr = c.t / (c.nr - 1)
+        k, a = 2.0 ** -5, 4.0
+        hfilm = k / dr * 2.0 ** -5
+        c.mat_T, c.mat_k, c.mat_a = None, np.array([k]), np.array([a])
+        c.T0, c.T0field = 300.0, None
+        c.inner_data, c.inner_data2 = np.full((c.nz,), 500.0), np.full((c.nz,), hfilm)
+        c.outer_data = c.outer_data2 = None
+        tau = c.t * k / (a * hfilm)
+        c.times = np.array([0.0, 1.0, 2.0, 3.0]) * tau * (4.0 if n < 2 else 16.0)
+        c.substep = 1
+        try:
+            bad = check_case(c, substep=1)
+        except (RuntimeError, ValueError) as e:
+            ctx.notes.append("real solve raised (C17 / table range, not C06): %r" % (e,))
+            nraised += 1
+            continue
+        ctx.case(("real-weakfilm", n), nontrivial=True, tag="real/%dD/film-ins/weak film, long step" % c.ndim,
+                 sample={"suite": "bounds on real solves (weak film, step of several response times)", "failures": bad[:2]})
+        for what, detail in bad:
+            viol.append((c, what, detail))
     # F17 probe
     f17 = tc.gen_case(rng, ndim=1, inner="flux", outer="ins", steady=False, const_mat=True, thick_ok=True, nsteps=1)
     f17.r, f17.t, f17.nr, f17.h = 1.0, 0.8, 2, 1.0
